@@ -14,6 +14,10 @@ pub struct MState {
     pub banks: Vec<Vec<u8>>,
     pub ay_selected: u8,
     pub ay_regs: [u8; 16],
+    /// chFlags of the AY chunk (2 = ZXSTAYF_128AY: a 48K machine with an AY interface)
+    pub ay_flags: u8,
+    /// write the AY chunk also for a 48K machine
+    pub ay_chunk_48k: bool,
     pub port_fe: u8,
     pub kempston: bool,
     pub mouse: bool,
@@ -56,7 +60,9 @@ impl MState {
             port7ffd: 0,
             banks: (0..8).map(|b| bank_pattern(b, salt)).collect(),
             ay_selected: 3,
-            ay_regs: [0x11, 0x02, 0x33, 0x04, 0x55, 0x06, 0x07, 0x38, 0x0F, 0x10, 0x0B, 0x44, 0x55, 0x0E, 0x00, 0x00],
+            ay_regs: [0x11, 0x02, 0x33, 0x04, 0x55, 0x06, 0x07, 0x38, 0x0F, 0x10, 0x0B, 0x44, 0x55, 0x0E, 0x5A, 0xC3],
+            ay_flags: 0,
+            ay_chunk_48k: false,
             port_fe: salt % 8, // last value written to port FE: low three bits are the border
             kempston: false,
             mouse: false,
@@ -222,7 +228,7 @@ pub fn szx(s: &MState, o: &SzxOpts) -> Vec<u8> {
         ramps.push(chunk(b"RAMP", &d));
     }
     // AY
-    let mut ayd = vec![0u8, s.ay_selected];
+    let mut ayd = vec![s.ay_flags, s.ay_selected];
     ayd.extend_from_slice(&s.ay_regs);
     let ay = chunk(b"AY\0\0", &ayd);
     let keyb = chunk(b"KEYB", &[0, 0, 0, 0, if s.kempston { 1 } else { 0 }]);
@@ -248,7 +254,7 @@ pub fn szx(s: &MState, o: &SzxOpts) -> Vec<u8> {
         }
     }
     let mut dev_g = Vec::new();
-    if o.with_ay && s.m128 {
+    if o.with_ay && (s.m128 || s.ay_chunk_48k) {
         dev_g.extend(ay);
     }
     if o.with_keyb {
